@@ -1906,6 +1906,56 @@ def rule_r14(chk, prog):
     chk.floor('C04.R14', 'indexed leaf texts in the renderers', n, 2)
 
 
+def rule_r22(chk, prog):
+    chk.rule('C04.R22', 'the summary reads the output file only where it is '
+             'known to exist: every stat / open-for-reading of the output '
+             'path in cli.py is dominated by a structural comparison of the '
+             'result with the original input (something was accepted, hence '
+             'written) or by an existence test')
+    m = prog.mod('cli')
+    n = 0
+    for q, f in m.funcs.items():
+        if '<locals>' in q:
+            continue
+        for c in walk_no_nested(f):
+            if not (isinstance(c, ast.Call) and (call_name(c) or '') in (
+                    'os.path.getsize', 'os.stat', 'os.path.getmtime', 'open')
+                    and c.args and 'outfile' in unparse(c.args[0])):
+                continue
+            if call_name(c) == 'open' and len(c.args) > 1 and is_const(
+                    c.args[1]) and set(str(c.args[1].value)) & set('wax'):
+                continue
+            n += 1
+            facts = facts_at(f, c)
+            ok = False
+            for (t, pol) in facts:
+                e = None
+                try:
+                    e = ast.parse(t, mode='eval').body
+                except SyntaxError:
+                    continue
+                if isinstance(e, ast.Compare) and len(e.ops) == 1 and \
+                        isinstance(e.ops[0], (ast.Eq, ast.NotEq)) and \
+                        isinstance(e.left, ast.Name) and isinstance(
+                            e.comparators[0], ast.Name):
+                    differs = pol != isinstance(e.ops[0], ast.Eq)
+                    if differs:
+                        ok = True
+                if pol and 'os.path.exists' in t and 'outfile' in t:
+                    ok = True
+                if pol and 'os.path.isfile' in t and 'outfile' in t:
+                    ok = True
+            chk.check('C04.R22', f'cli.{q}', c, ok,
+                      f'"{unparse(c)[:50]}" is evaluated without the result '
+                      'having been shown to differ from the input (== / != '
+                      'on the lists; an identity test says nothing: ddmin '
+                      'always returns a new list): when nothing was '
+                      'accepted the output file was never written and the '
+                      'run ends with FileNotFoundError after a completed '
+                      'minimisation', loc=m.loc(c), nontrivial=True)
+    chk.floor('C04.R22', 'reads of the output file in cli.py', n, 1)
+
+
 def run(tier):
     prog = Program()
     chk = Check(
@@ -2001,6 +2051,7 @@ def run(tier):
               'the assertions of the tree core test types and arities, never '
               'what the text of a leaf looks like',
               'AssertionError in the main process (or in every worker) on a legal input')
+    chk.guard(rule_r22, chk, prog)
     extra = None
     if tier == 'thorough':
         from .. import selftest
